@@ -4,6 +4,10 @@ import json, subprocess
 
 # id -> (technique, level text, level note, design ref)
 CHECKS = {
+ "C01": ("taint accounting on the output stream under three Set escapers (default HTML, nil, tagging SafeWriter); comparison with the reference evaluator's escaped-exactly-once output",
+         "Exploration: generated template sets render data of 17 kinds (specials, NUL, multi-byte runes, values straddling the 4096-byte print buffer) at value sites in every context the property names, as plain actions or ending in a SafeWriter in piped/prefix/call form. For each of the three escaper configurations the real output must equal text verbatim + escaper(value) + writer(value); the tagging escaper makes unescaped, doubly escaped, truncated or reordered values visible byte for byte. Directed: a SafeWriter that is not last must be an error.",
+         "Trusts the reference evaluator for control flow and Go's template.HTMLEscapeString/JSEscapeString as the whole-value form of the SafeWriters. Renderer values and rune-aware writers on values longer than the print buffer are out of scope.",
+         "DESIGN.md 3/C01"),
  "C12": ("failure-injection monitor: one failing action per class planted at a random position of a generated template set; returned error, its (file:line) and the bytes in the writer compared with the reference evaluator",
          "Exploration: 77 failure classes x random positions (any statement list of the executed, an included, an imported or an extended template; nesting depth 0-4; random blank lines, multi-line comments and trim markers as layout noise). Execute must return an error and not panic, the message must carry the file and 1-based line of the failing action for the classes jet detects itself, and the writer must hold exactly the output up to the failing action.",
          "Trusts the reference evaluator for which actions run before the failure. Errors raised inside jet.Func built-ins are the recorded known finding K3.",
